@@ -296,11 +296,6 @@ impl KademliaPeer {
     pub fn verif_peer(&self) -> PeerId {
         self.peer
     }
-
-    /// Verification hook: connection type of the entry.
-    pub fn verif_connection(&self) -> ConnectionType {
-        self.connection
-    }
 }
 
 impl TryFrom<&schema::kademlia::Peer> for KademliaPeer {
